@@ -40,7 +40,11 @@ func c11NotSwallowed(c *Ctx, p *core.Prog, ctxErr map[*ssa.Function]bool, exempt
 				n++
 				seq++
 				key := core.FnName(fn) + "|" + callee.Name() + sprintf("#%d", seq)
-				if why, ok := exempt[core.FnName(fn)+"|"+callee.Name()]; ok {
+				why, ok := exempt[core.FnName(fn)+"|"+callee.Name()]
+				if !ok {
+					why, ok = exempt[core.FnName(fn)+"|*"]
+				}
+				if ok {
 					r.OK("ctx-not-swallowed", key, p.Pos(call.Pos()), "audited: "+why)
 					continue
 				}
